@@ -7,7 +7,7 @@ import numpy as np
 from .. import fileio as fio
 from .. import streams as st
 
-THEOREMS = ["C18_read", "C18_position", "C18_write", "C18_lasdata_write", "C18_append"]
+THEOREMS = ["C18_write_evlrs", "C18_read_las", "C18_read", "C18_position", "C18_write", "C18_lasdata_write", "C18_append"]
 
 
 def make_files(ck):
@@ -202,7 +202,7 @@ def run(ck):
                 pass
             if s.closed != closefd:
                 ck.fail(f"write mode with EVLRs written, closefd={closefd}, outcome '{outcome}': stream.closed == {s.closed}", sc)
-            lines.append(f"st write {int(closefd)} 1 {int(outcome == 'body_exception')}")
+            lines.append(f"st writeev {int(closefd)} {int(outcome != 'evlrs_only')} {int(outcome == 'body_exception')}")
             meta.append((sc, None, int(s.closed), None))
     # reading fails after the header was accepted: the points are flagged compressed and cannot be decompressed here, or the
     # source fails inside the point block; laspy.read / the with-block own the stream as in every other case
@@ -252,6 +252,10 @@ def run(ck):
                     ck.count("r_late_failure_did_not_fail")
                 if s.closed != closefd:
                     ck.fail(f"read mode, {what}, closefd={closefd}, {api} (raised {err}): stream.closed == {s.closed}", sc)
+                if api == "read_las":
+                    bi = next(i for (lb, d, i) in files if d is vbase)
+                    lines.append(f"st readlas 1 1 {info_tok(bi)} {int(closefd)} {'read' if what.startswith('source') else 'source'}")
+                    meta.append((sc, None, int(s.closed), None))
     # LasData.write never closes
     for minor, fmt in ((2, 3), (4, 6)):
         s = st.LogStream()
